@@ -34,6 +34,28 @@ const HAND: &[(&str, &str)] = &[
         (func (export "loop") (param i32) (result i32) (local i32) block loop local.get 0 i32.eqz br_if 1 local.get 1 local.get 0 i32.add local.set 1 local.get 0 i32.const 1 i32.sub local.set 0 br 0 end end local.get 1)
         (func (export "tbl") (param i32) (result i32) block block block local.get 0 br_table 0 1 2 end i32.const 10 return end i32.const 20 return end i32.const 30)
         (func (export "noelse") (param i32) (result i32) (local i32) local.get 0 if i32.const 7 local.set 1 end local.get 1))"#),
+    ("two-of-everything", r#"(module (memory (export "m0") 1) (data $d0 "abcd") (data $d1 "wxyz")
+        (table $ta (export "t0") 4 funcref) (table $tb (export "t1") 4 funcref) (elem $e0 func $one) (elem $e1 func $two) (elem (table $ta) (i32.const 0) func $one $one) (elem (table $tb) (i32.const 0) func $two $two)
+        (global $ga (export "g0") (mut i32) (i32.const 1)) (global $gb (export "g1") (mut i32) (i32.const 2))
+        (func $one (result i32) i32.const 11) (func $two (result i32) i32.const 22)
+        (func (export "copy_ab") i32.const 2 i32.const 0 i32.const 1 table.copy $ta $tb)
+        (func (export "copy_ba") i32.const 3 i32.const 0 i32.const 1 table.copy $tb $ta)
+        (func (export "init_a1") i32.const 1 i32.const 0 i32.const 1 table.init $ta $e1)
+        (func (export "init_b0") i32.const 1 i32.const 0 i32.const 1 table.init $tb $e0)
+        (func (export "call_a") (param i32) (result i32) local.get 0 call_indirect $ta (result i32))
+        (func (export "call_b") (param i32) (result i32) local.get 0 call_indirect $tb (result i32))
+        (func (export "minit0") (param i32) local.get 0 i32.const 0 i32.const 4 memory.init $d0)
+        (func (export "minit1") (param i32) local.get 0 i32.const 0 i32.const 4 memory.init $d1)
+        (func (export "drop1") data.drop $d1) (func (export "edrop0") elem.drop $e0)
+        (func (export "ld") (param i32) (result i32) local.get 0 i32.load)
+        (func (export "swapg") global.get $ga global.get $gb global.set $ga global.set $gb)
+        (func (export "gsub") (result i32) global.get $ga global.get $gb i32.sub)
+        (func (export "sizes") (result i32) table.size $ta i32.const 100 i32.mul table.size $tb i32.add)
+        (func (export "grow_b") (param i32) (result i32) ref.null func local.get 0 table.grow $tb)
+        (func (export "sel") (param i32 i64 i64) (result i64) local.get 1 local.get 2 local.get 0 select)
+        (func (export "sub") (param i32 i32) (result i32) local.get 0 local.get 1 i32.sub)
+        (func (export "shl") (param i64 i64) (result i64) local.get 0 local.get 1 i64.shl)
+        (func (export "locs") (param i32 i32) (result i32) (local i32 i32) local.get 0 local.set 2 local.get 1 local.set 3 local.get 2 i32.const 10 i32.mul local.get 3 i32.add))"#),
     ("start-and-data", r#"(module (memory (export "m0") 1) (data (i32.const 16) "hello") (global (export "g0") (mut i32) (i32.const 0))
         (func $init i32.const 0 i32.const 42 i32.store8 i32.const 1 global.set 0) (start $init)
         (func (export "peek") (param i32) (result i32) local.get 0 i32.load8_u)
